@@ -16,6 +16,8 @@ def in_scope(cfg):
         return False
     if cfg.get('ps') is not None and any(cfg['ps']):
         return False
+    if cfg.get('spf') is not None and any(cfg['spf']):
+        return False
     if any(r['kind'] not in OK_ROUTING for r in cfg['routing']):
         return False
     return True
